@@ -62,6 +62,11 @@ func runC16(r *ev.Run) {
 			// an untrained index is a legal (empty) state too: its stream carries the parameters but no centroids / codebooks
 			st, err = buildSerState(rng, kind, true, 1)
 			r.Count("streams:untrained-"+kind, 1)
+		} else if round := ci / len(serKindNames); round%6 == 2 {
+			// the empty (never used) and the all-removed state of EVERY kind: their streams are valid too, and every
+			// strict prefix / mismatched receiver of them is rejected like any other
+			st, err = buildSerState(rng, kind, true, []int{0, 2}[(round/6)%2])
+			r.Count("streams:empty-or-all-removed-"+kind, 1)
 		} else {
 			st, err = buildSerState(rng, kind, ci%5 == 0)
 		}
